@@ -72,9 +72,15 @@ type call struct {
 	activeAtStart []string
 	// tdAccepted: teardown requests the manager had already accepted (received from teardownch) when it issued this call
 	tdAccepted int
-	release    chan string
-	result     string // "" while in flight
-	released   bool
+	// intermediate obligation: while a cluster operation of the lease is in flight the lease's
+	// capacity and hostnames must still be accounted as reserved ("released THEN", i.e. after
+	// teardown). Read when the call starts and again when it returns, directly from the inventory
+	// service's reservation counter and the hostname service's table (no channel round trip).
+	resAtStart, resAtEnd   int64
+	hostAtStart, hostAtEnd bool
+	release                chan string
+	result                 string // "" while in flight
+	released               bool
 }
 
 func (c *call) id() string { return fmt.Sprintf("%s#%d", c.kind, c.seq) }
@@ -252,7 +258,9 @@ func (h *inst) begin(kind string, lid mtypes.LeaseID, version int) *call {
 		h.tdch = ch // kept: the service forgets the manager once it is done
 	}
 	c.tdAccepted = vs.RecvCountNow(h.tdch)
-	vs.Note(kind, c.seq, version, strings.Join(c.activeAtStart, ","))
+	c.resAtStart = cluster.VerifC14ReservationCount(h.svc)
+	c.hostAtStart = cluster.VerifC14HostnameInUse(h.svc, hostName)
+	vs.Note(kind, c.seq, version, strings.Join(c.activeAtStart, ","), c.resAtStart, c.hostAtStart)
 	h.calls = append(h.calls, c)
 	h.active = append(h.active, c)
 	return c
@@ -265,6 +273,9 @@ func (h *inst) end(c *call, res string) {
 			break
 		}
 	}
+	c.resAtEnd = cluster.VerifC14ReservationCount(h.svc)
+	c.hostAtEnd = cluster.VerifC14HostnameInUse(h.svc, hostName)
+	vs.Note("end", c.seq, c.resAtEnd, c.hostAtEnd)
 	c.result = res
 }
 
@@ -624,7 +635,24 @@ func (h *inst) check(r *vs.Result) (string, []string) {
 			bad("deploy-after-teardown-request:"+which, "%s (manifest v%d) was issued after the manager had accepted the teardown request (lease closed)", c.id(), c.version)
 		}
 	}
-	// (3) end-of-history obligations, evaluated at the settled point
+	// (2b) "... the reservation and hostnames are THEN released": not before - while a Deploy or a
+	// TeardownLease of the lease is in flight its capacity and hostnames are still accounted for
+	for _, c := range h.calls {
+		what := "while-deploy-in-flight"
+		if c.kind == kTeardown {
+			what = "before-teardown-finished"
+		}
+		if c.resAtStart < 1 || (c.result != "" && c.resAtEnd < 1) {
+			when := "returned"
+			if c.resAtStart < 1 {
+				when = "started"
+			}
+			bad("reservation-released-"+what, "when %s %s the inventory no longer held the lease's reservation (reservation count %d at start, %d at return)", c.id(), when, c.resAtStart, c.resAtEnd)
+		}
+		if !c.hostAtStart || (c.result != "" && !c.hostAtEnd) {
+			bad("hostnames-released-"+what, "%s: the lease's hostname was not reserved any more (reserved at start: %v, at return: %v)", c.id(), c.hostAtStart, c.hostAtEnd)
+		}
+	}
 	viol = append(viol, h.due...)
 	if h.pr.begun && !h.pr.ended {
 		bad("probe-stuck", "Status()/CanReserveHostnames() did not return although the service was running and quiescent")
@@ -684,6 +712,9 @@ func (h *inst) check(r *vs.Result) (string, []string) {
 		}
 		if c.tdAccepted > 0 {
 			fmt.Fprintf(&b, ":td%d", c.tdAccepted)
+		}
+		if c.resAtStart != 1 || !c.hostAtStart || (c.result != "" && (c.resAtEnd != 1 || !c.hostAtEnd)) {
+			fmt.Fprintf(&b, ":res%d/%d:host%v/%v", c.resAtStart, c.resAtEnd, c.hostAtStart, c.hostAtEnd)
 		}
 	}
 	fmt.Fprintf(&b, "]|settled=%v", h.settled)
